@@ -22,7 +22,7 @@ func TestMain(m *testing.M) {
 	if sup.IsWorker() {
 		sup.RunWorker()
 	}
-	ev.Note("rule", "C15: ordered pairs (consumer A, producer B) of generated schemas, evaluated as A.ValidateCompatibility(B) in a supervised worker, 16 times each: B = A itself; B = an identical copy; B = A rebuilt from its own description (scopes); B = A with exactly one mutation at a random depth that makes it unconsumable (a different base kind; a numeric range / string length / list size / map size disjoint from A's; an enum value outside A's set; an undeclared property; a required property dropped; a different ID with both sides enforcing; another discriminator name; a one-of member dropped), or with one harmless mutation (ranges still overlapping); plus the full 2^4 matrix of nil/non-nil (A.min, A.max, B.min, B.max) for integer, float, string, list and map bounds with overlapping and disjoint values (enumerated), and recursive / mutually recursive scopes. Oracle: a verdict is returned (no panic, fatal error or hang); the 16 repetitions agree; identical, copied and rebuilt producers are accepted; unconsumable mutants are rejected. Non-trivial: the pair is a must-reject mutant, has a mixed nil/non-nil bound pattern, or is recursive; distinct by (A, B).")
+	ev.Note("rule", "C15: ordered pairs (consumer A, producer B) of generated schemas, evaluated as A.ValidateCompatibility(B) in a supervised worker, 16 times each: B = A itself; B = an identical copy; B = A rebuilt from its own description (scopes); B = A with exactly one mutation at a random depth that makes it unconsumable (a different base kind; a numeric range / string length / list size / map size disjoint from A's; an enum value outside A's set; an undeclared property (added, or an optional one renamed); a required property dropped; a different ID with both sides enforcing; another discriminator name; a one-of member dropped), or with one harmless mutation (ranges still overlapping); plus the full 2^4 matrix of nil/non-nil (A.min, A.max, B.min, B.max) for integer, float, string, list and map bounds with overlapping and disjoint values (enumerated), and recursive / mutually recursive scopes. Oracle: a verdict is returned (no panic, fatal error or hang); the 16 repetitions agree; identical, copied and rebuilt producers are accepted; unconsumable mutants are rejected. Non-trivial: the pair is a must-reject mutant, has a mixed nil/non-nil bound pattern, or is recursive; distinct by (A, B).")
 	ev.RegisterReplay("pair", func(t *testing.T, raw json.RawMessage) {
 		var c Case
 		if err := json.Unmarshal(raw, &c); err != nil {
@@ -467,6 +467,22 @@ func mutate(t *rapid.T, b *spec.Spec) (string, bool) {
 			if st.under != spec.KScope && !n.IDUnenforced {
 				n.ID = n.ID + "_other"
 				return "different object ID, both sides enforcing", true
+			}
+		case 3:
+			// an optional property renamed: the producer carries an undeclared property AND has no more properties
+			// than the consumer declares (counting properties cannot tell)
+			if n.Struct == "" {
+				for i := range n.Props {
+					if !n.Props[i].Required && len(n.Props[i].RequiredIf) == 0 && len(n.Props[i].RequiredIfNot) == 0 {
+						old := n.Props[i].Name
+						n.Props[i].Name = old + "_renamed"
+						for j := range n.Props {
+							q := &n.Props[j]
+							q.RequiredIf, q.RequiredIfNot, q.Conflicts = drop(q.RequiredIf, old), drop(q.RequiredIfNot, old), drop(q.Conflicts, old)
+						}
+						return "producer object carries an undeclared property in place of the optional property " + old, true
+					}
+				}
 			}
 		}
 		return "", false
